@@ -159,7 +159,7 @@ TReset ==
 TArrive == Step("Arrive") /\ Arrive(Ev.p, Ev.r) /\ UNCHANGED <<stopCalled, hung>>
 TEnter  == Step("Enter") /\ TgAdd(Ev.p, Ev.r) /\ st'[Ev.p][Ev.r] = "handling" /\ UNCHANGED <<stopCalled, hung>>
 TExit   == Step("Exit") /\ Handle(Ev.p, Ev.r) /\ UNCHANGED <<stopCalled, hung>>
-TAnswered == Step("Answered") /\ out[Ev.p][Ev.r] = "answered" /\ Skip /\ UNCHANGED <<stopCalled, hung>>
+TAnswered == Step("Answered") /\ out[Ev.p][Ev.r] \in {"answered", "maybe"} /\ Skip /\ UNCHANGED <<stopCalled, hung>>
 \* the client saw the stream die: the RPC was dropped/refused/lost, or the whole transport is gone
 TFailed ==
     /\ Step("Failed")
